@@ -27,6 +27,7 @@ import (
 	"github.com/hashicorp/nodeenrollment/registration"
 	"github.com/hashicorp/nodeenrollment/rotation"
 	"github.com/hashicorp/nodeenrollment/storage/inmem"
+	teststore "github.com/hashicorp/nodeenrollment/storage/testing"
 	nodetls "github.com/hashicorp/nodeenrollment/tls"
 	"github.com/hashicorp/nodeenrollment/types"
 	"google.golang.org/protobuf/proto"
@@ -43,6 +44,8 @@ type Cfg struct {
 	RegW     bool     `json:"regw"` // server configured with an AEAD registration wrapper
 	CertKeys []string `json:"certKeys"`
 	Unix     bool     `json:"unix"`    // listen on a unix socket instead of tcp
+	SO       bool     `json:"so"`      // server storage = the store-once test back end, which looks records up by node id ITSELF
+	TwoH     bool     `json:"twoh"`    // file back end, two handles on one directory: the listener holds one, the operator uses the other
 	LState   bool     `json:"lstate"`  // the listener's own Options carry WithState (legitimate: they feed the fetch function)
 	Nide     bool     `json:"nide"`    // node-id lookups that find nothing answer with an empty set instead of not-found
 	LifeSec  int      `json:"lifeSec"` // root lifetime in seconds (0: library default); short lifetimes enable RotateWait
@@ -211,6 +214,15 @@ func (r *run) state() St {
 	return st
 }
 
+// rawStoreNI writes an edited node record straight to the back end (a store-once back end refuses to overwrite: the old
+// record is removed first there)
+func rawStoreNI(w *world.World, ni *types.NodeInformation) {
+	if err := w.Inner.Store(w.Ctx, ni); err != nil {
+		_ = w.Inner.Remove(w.Ctx, &types.NodeInformation{Id: ni.Id})
+		_ = w.Inner.Store(w.Ctx, ni)
+	}
+}
+
 var waitOps = map[string]bool{"WaitOverlap": true, "RotateWait": true, "ExpireWait": true, "Reinit": true}
 
 func Run(bh Behaviour, seed int64) ([]Line, error) {
@@ -240,6 +252,23 @@ func Run(bh Behaviour, seed int64) ([]Line, error) {
 		}
 		sc.ExtraOpts = append(sc.ExtraOpts, nodeenrollment.WithRegistrationWrapper(aw))
 	}
+	if bh.Cfg.SO {
+		so, err := teststore.New(context.Background())
+		if err != nil {
+			return nil, err
+		}
+		sc.Inner = so
+	}
+	if bh.Cfg.TwoH {
+		shared, cleanup, err := world.NewSwitchStorage(2)
+		if err != nil {
+			return nil, err
+		}
+		defer cleanup()
+		sc.Inner = shared
+		sc.ListenerStore = shared.Handles[0] // the long-lived listener holds ONE handle for its whole life
+		shared.Cur = 1                       // everything the operator / harness does goes through the other one
+	}
 	if bh.Cfg.LState {
 		ls, _ := structpb.NewStruct(map[string]any{"owner": "listener", "configured": true})
 		sc.ExtraOpts = append(sc.ExtraOpts, nodeenrollment.WithState(ls))
@@ -250,6 +279,7 @@ func Run(bh Behaviour, seed int64) ([]Line, error) {
 	}
 	defer srv.Close()
 	srv.W.Rec.NidEmptyOK = bh.Cfg.Nide
+	srv.W.Rec.NativeNid = bh.Cfg.SO
 	r := &run{srv: srv, cfg: bh.Cfg, prev: map[string]*prev{}, ngen: map[string]int{}, sent: map[string]sentHello{}, rng: mrand.New(mrand.NewSource(world.Uint64Seed(seed, "hsd/"+bh.Id)))}
 	cfgMap := map[string]any{"nidl": bh.Cfg.Nidl, "base": bh.Cfg.Base}
 	var lines []Line
@@ -368,7 +398,7 @@ func (r *run) step(op map[string]any, ln *Line) {
 			ni := &types.NodeInformation{Id: srv.W.CertKeys[k].KeyId}
 			if err := srv.W.Inner.Load(srv.W.Ctx, ni); err == nil {
 				ni.NodeId = "N-" + k
-				_ = srv.W.Inner.Store(srv.W.Ctx, ni)
+				rawStoreNI(srv.W, ni)
 			}
 		}
 		ln.Res = "ok"
@@ -702,7 +732,7 @@ func (r *run) rotateNode(op map[string]any, ln *Line) {
 		ni := &types.NodeInformation{Id: kid}
 		if w.Inner.Load(w.Ctx, ni) == nil {
 			ni.NodeId = "N-" + k
-			_ = w.Inner.Store(w.Ctx, ni)
+			rawStoreNI(w, ni)
 		}
 	}
 	srv.Nodes[k] = &hs.Node{Name: k, Storage: newStore, Creds: nc, Fresh: true}
